@@ -165,6 +165,18 @@ func c11case(c *wk.Ctx, idx int, r *rand.Rand, h c11history) {
 			delays[p] = []int{100, 1000, 3000}[r.Intn(3)]
 		}
 	}
+	// scripted schedules: the caller is held right after its write (or after sendPacket returned), so the server's
+	// rejection reaches the receive loop before the caller waits for anything
+	switch idx % 4 {
+	case 1:
+		delays["call.sent"] = hookAlways + 5000
+	case 2:
+		delays["send.written"] = hookAlways + 5000
+	case 3:
+		if r.Intn(2) == 0 {
+			delays["call.sent"] = 3000
+		}
+	}
 	theHooks.start(rand.New(rand.NewSource(r.Int63())), delays, nil)
 	defer theHooks.stop()
 	used := map[uint64]bool{}
